@@ -7,6 +7,8 @@ import Dawgs.Proofs.C14Seg
 import Dawgs.Proofs.C14TravInst
 import Dawgs.Proofs.C14Edges
 import Dawgs.Proofs.C14Dims
+import Dawgs.Proofs.C14ToSeg
+import Dawgs.Proofs.C14Factory
 set_option linter.unusedSimpArgs false
 set_option linter.unusedVariables false
 namespace Dawgs.C14
